@@ -117,7 +117,12 @@ def trimesh_frame(exc):
     for fs in traceback.extract_tb(exc.__traceback__):
         fn = os.path.realpath(fs.filename)
         if fn.startswith(os.path.join(REPO, "trimesh") + os.sep):
-            found = (os.path.relpath(fn, REPO), fs.name)
+            rel = os.path.relpath(fn, REPO)
+            # the array-tracking hooks of caching.py sit under every numpy call on a tracked array: they are never
+            # the informative frame unless nothing else in trimesh is on the stack
+            if found is not None and rel.endswith("caching.py") and fs.name in ("__array_function__", "__array_ufunc__", "__array_wrap__"):
+                continue
+            found = (rel, fs.name)
     return found
 
 
